@@ -238,15 +238,21 @@ def enumerate_programs(scratch, cls, maxlen, gaps, max_gap_items=1, workers=8):
     tlc.write_cfg(cfg, spec='Spec', constants={'Class': cls, 'MaxLen': maxlen, 'Gaps': set(gaps), 'MaxGapItems': max_gap_items},
                   invariants=['Export'])
     r = tlc.run('AsmProgs', cfg, workers=1, heap='4g', timeout=3600)
-    alpha, progs = None, []
+    alpha, progs, plain = None, [], None
     for v in r.printed():
         if v and v[0] == 'ALPHA':
             alpha = v[1]
+        elif v and v[0] == 'PLAIN':
+            plain = v[1]
         elif v and v[0] == 'P':
             progs.append(v[1])
     if not r.completed or alpha is None:
         raise tlc.TlcFailure('AsmProgs enumeration failed: ' + r.out[-1500:])
+    PLAIN[cls, tuple(gaps)] = plain
     return alpha, progs, r
+
+
+PLAIN = {}        # (class, gaps) -> the alphabet with every pseudo-branch / j / jal written as its documented base instruction
 
 
 def assemble_all(progs, scratch, procs=16, chunk=400):
